@@ -28,12 +28,22 @@ META = {
                   "every enumerated ring / owner+instance combination is replayed into PartitionRing, ActivePartitionBatchRing, "
                   "PartitionInstanceRing and MultiPartitionInstanceRing and compared with TLC's outputs; lookups on seeded random rings of 1..20 "
                   "partitions with generated tokens and every CAS of real lifecyclers + editor running on one in-memory store under the synctest "
-                  "clock (systematic short schedules and seeded long ones) are validated by TLC against the specification.",
+                  "clock (systematic short schedules and seeded long ones) are validated by TLC against the specification. Extension round: the "
+                  "snapshot query API of PartitionRing / ActivePartitionBatchRing (ids by state, counts, ShuffleShardSize and the size of the real "
+                  "ShuffleShard, owner lists incl. MultiPartitionOwnerIDs with every buffer shape, GetKeysByPartition of no keys / a cancelled "
+                  "caller, Get with a caller buffer, instance names without numeric suffix in the multi-partition variant) is replayed from the "
+                  "same TLC universes (SnapshotSound); real CAS conflicts are produced by stopping one writer inside its CAS function at its first "
+                  "write attempt while another writer commits (every attempt and every retried commit must be an enabled action on the ring it "
+                  "read); GetPartitionState of every running lifecycler is bound after every step of the conflict and random chains.",
     "level_note": "Bounded: exhaustive within the stated universes; recorded schedules are a sample of all schedules (every tail of 2 steps over a "
                   "13-step (quick) / 20-22-step (thorough) alphabet after each of 7 scenario prefixes, plus seeded random schedules of 60 steps "
                   "with 1..4 lifecyclers). Trusted: TLC, the key-class embedding and "
-                  "rank compression, the projection of PartitionRingDesc to the abstract state, the serialisation of writers by the recording "
-                  "kv.Client (CAS conflicts are C07's concern), whole-second event times, the consul in-memory store.",
+                  "rank compression, the projection of PartitionRingDesc to the abstract state, the recording kv.Client (un-gated writers are "
+                  "serialised; conflicts are produced only at the gate inside the CAS function, so the log order is the commit order; the "
+                  "atomicity of the store's CAS itself is C07's concern), whole-second event times, the consul in-memory store. Not modelled: "
+                  "the partition ring over the gossip KV (lifecyclers on different memberlist nodes, tombstones, watcher-fed rings per node) - "
+                  "Merge/RemoveTombstones of PartitionRingDesc are bound by C03/C04 only; KV read/write errors inside the lifecycler; a CAS retry "
+                  "after time has passed (the in-memory store retries without delay).",
     "technique": "TLA+ specification model-checked by TLC; TLC-generated cases replayed into the real code; traces and lookups recorded "
                  "from the real code validated by TLC",
     "design_ref": "DESIGN.md 2 C15",
@@ -41,6 +51,8 @@ META = {
 
 W = int(os.environ.get("VERIF_C15_WORKERS", "8"))
 PROPS = ("LegalEdges", "LockRespected", "PromotionTiming", "DeletionGuard", "LockOnlyByEditor", "RefusedIsNoWrite", "TypeOK")
+
+WITNESSES = ("WitAutoPromotion", "WitDeletion", "WitLockRefusal", "WitLockedReconcile", "WitIllegalEdge")
 
 GEN = {  # cfg -> (NK, gaps) of the route universe it enumerates
     "MC_gen_quick": (6, [3]), "MC_gen_thorough": (7, [3]), "MC_gen_spaced": (7, [0, 2, 4, 6]), "MC_gen_multi2": (3, [1]),
@@ -217,10 +229,11 @@ def run(ctx):
     ctx.rule = ("replayed case = one ring (token layout x state mix) or one owner/instance-ring combination of the TLC universe, non-trivial if it "
                 "has a non-active partition with tokens / an unhealthy or unknown registered owner; recorded ring = one seeded random ring, "
                 "non-trivial if active and non-active partitions are mixed; recorded chain = one schedule of real lifecyclers + editor, "
-                "non-trivial if it contains a committed state change, a deletion or a refused request")
+                "non-trivial if it contains a committed state change, a deletion, a refused request or a real CAS conflict")
     ctx.assumptions = ["monotone key-class embedding / rank compression of uint32 tokens and keys",
                        "every partition has at least one token (AddPartition always generates tokens)",
-                       "writers are serialised by the recording kv.Client, so the log order is the commit order (CAS atomicity itself is C07)",
+                       "un-gated writers are serialised by the recording kv.Client and a gated writer re-takes the lock before its stale write, "
+                       "so the log order is the commit order (CAS atomicity itself is C07)",
                        "events happen on whole seconds of the synctest bubble clock",
                        "the in-memory consul store (no merge of concurrent writers, no tombstones)"]
     ctx.exhaustive = True
@@ -231,7 +244,7 @@ def run(ctx):
 
     # 1. the property on the state machine, exhaustively - overlapped with the bindings below (TLC only)
     def check_sm():
-        cfgs = ["MC_sm_quick"] if quick else (["MC_sm_cov", "MC_sm_full2", "MC_sm_3p2l", "MC_sm_2p3l", "MC_sm_multi"] +
+        cfgs = [] if "sm" not in stages else ["MC_sm_quick"] if quick else (["MC_sm_cov", "MC_sm_full2", "MC_sm_3p2l", "MC_sm_2p3l", "MC_sm_multi"] +
                                               # MC_sm_three (3 partitions x 3 lifecyclers at once, 42M transitions) is opt-in
                                               (["MC_sm_three"] if os.environ.get("VERIF_C15_BIG") else []))
         for cfg in cfgs:
@@ -240,12 +253,23 @@ def run(ctx):
             ctx.require_tlc_ok(r, cfg)
             if r.coverage_zero:
                 incon("%s: actions never taken: %s" % (cfg, r.coverage_zero))
+        if not quick or "wit" in stages:
+            # reachability witnesses: TLC must refute each "never" statement (the antecedents of the implication-shaped
+            # action properties occur in the model)
+            for wit in WITNESSES:
+                r = tlc_run(ctx, "partitionring", "MC_PartitionRing", cfg="MC_sm_witness.cfg", workers=min(W, 4), timeout=900, deadlock=False,
+                            subst={"@@WIT@@": wit})
+                if r.timed_out or r.error or r.violated != wit:
+                    incon("witness %s was not refuted by TLC (%s)" % (wit, r.error or r.violated or "no violation"))
 
-    sm = Bg(check_sm) if "sm" in stages else None
+    sm = Bg(check_sm) if ("sm" in stages or "wit" in stages) else None
 
     # 2. pure part, spec -> code, generation: TLC enumerates rings and owner/instance-ring combinations, proves
     #    RoutingTotal / ReplExact / MultiSound on each and emits the expected outputs (background; replayed in step 4)
     gen_cfgs = [] if "gen" not in stages else ["MC_gen_quick"] if quick else ["MC_gen_thorough", "MC_gen_spaced", "MC_gen_multi2", "MC_gen_quick"]
+
+    if os.environ.get("VERIF_C15_GEN"):   # development aid only: replay just these universes
+        gen_cfgs = os.environ["VERIF_C15_GEN"].split(",")
 
     def generate(cfg):
         r = tlc_run(ctx, "partitionring", "PartitionRingGen", cfg=cfg + ".cfg", workers=min(W, 4), timeout=1500, deadlock=False, counted=True)
@@ -258,7 +282,8 @@ def run(ctx):
     # 3. code -> spec, recording: lookups on seeded random rings and every CAS of real lifecyclers + editor on one
     #    in-memory store; PartitionRingCheck.tla / PartitionRingTrace.tla decide them in the background
     env = {"VERIF_N": 40 if quick else 200, "VERIF_TAIL": 2, "VERIF_ALPHA": "small" if quick else "full",
-           "VERIF_PROFILES": 1 if quick else 2, "VERIF_RANDOM": 10 if quick else 100, "VERIF_RANDOM_LEN": 60}
+           "VERIF_PROFILES": 1 if quick else 2, "VERIF_RANDOM": 10 if quick else 100, "VERIF_RANDOM_LEN": 60,
+           "VERIF_RACE": int(os.environ.get("VERIF_C15_RACE", 1 if quick else 4))}   # env: development aid only
     if selftest == "corrupt-ring":
         env["VERIF_CORRUPT_RING"] = 7
     if selftest == "corrupt-trace":
